@@ -48,12 +48,12 @@ def write_cfg(path, spec="Spec", constants=None, invariants=(), properties=(), c
     return path
 
 
-def run(module, cfg, scratch, workers=16, extra=(), env=None, timeout=3600, tag=None):
+def run(module, cfg, scratch, workers=16, extra=(), env=None, timeout=3600, tag=None, xmx="8g"):
     """Run TLC on spec/<module>.tla with the given cfg file. Returns dict with
     out, states, distinct, seconds, ok, violated (name of violated invariant)."""
     tag = tag or f"{module}-{os.path.basename(cfg)}-{time.time_ns()}"
     meta = os.path.join(scratch, "meta-" + tag)
-    cmd = ["java", "-XX:+UseParallelGC", "-Xmx6g", "-cp", JAR, "tlc2.TLC", "-workers", str(workers),
+    cmd = ["java", "-XX:+UseParallelGC", "-Xmx" + xmx, "-cp", JAR, "tlc2.TLC", "-workers", str(workers),
            "-metadir", meta, "-noGenerateSpecTE", "-config", cfg, *extra, os.path.join(SPEC, module + ".tla")]
     e = dict(os.environ)
     if env:
@@ -115,7 +115,7 @@ def validate(module, traces, scratch, shards=16, timeout=3600, constants=None):
     def one(arg):
         path, n = arg
         r = run(module, cfg, scratch, workers=1, env={"TRACE_FILE": path}, timeout=timeout,
-                tag=os.path.basename(path))
+                tag=os.path.basename(path), xmx="1500m")
         m = re.search(r'<<"CHECKED", (\d+)>>', r["out"])
         if not m or int(m.group(1)) != n or r["violated"]:
             raise MachineryError(f"trace validation incomplete for {path}: checked "
